@@ -89,6 +89,7 @@ def impl_results(data: Any, bits: int, ncalls: int) -> list[int]:
         with time_limit():
             return _impl_results(Tokenizer, TokenSyntaxError, data, bits, ncalls)
     except ImplTimeout:
+        note_hang('Tokenizer', (data if isinstance(data, str) else '<chunks>', _OPTS[bits], ncalls))
         return list(HANG)
 
 
@@ -171,9 +172,10 @@ _STRIKES = [0]
 
 def current_limit() -> float:
     """The limit shrinks once calls have been seen to hang in this process: a fault that makes every other input loop must not turn
-    a 30 s stage into hours (3 strikes at 2 s, 17 at 0.2 s, then 0.03 s of CPU per call - still 30x what a call needs)."""
+    a 30 s stage into hours (3 strikes at 2 s, 17 at 0.2 s, 80 at 0.03 s, then 4 ms of CPU per call - one timer tick, still many
+    times what a call on these short texts needs; only reached in a run that has already seen 100 hangs)."""
     n = _STRIKES[0]
-    return IMPL_LIMIT_S if n < 3 else IMPL_LIMIT_S / 10 if n < 20 else IMPL_LIMIT_S / 66
+    return IMPL_LIMIT_S if n < 3 else IMPL_LIMIT_S / 10 if n < 20 else IMPL_LIMIT_S / 66 if n < 100 else IMPL_LIMIT_S / 500
 
 
 def _on_prof(signum, frame):
@@ -205,9 +207,28 @@ def time_limit(seconds: float | None = None):
         _LIMIT_ACTIVE[0] = False
 
 
+class TooManyHangs(Exception):
+    """So many calls into the implementation ran into their time limit that going on is pointless: the check stops and reports
+    the first of them as a violation (with what has been found so far)."""
+    def __init__(self, fn: str, args_repr: str) -> None:
+        super().__init__(fn, args_repr)
+        self.fn, self.args_repr = fn, args_repr
+
+
+HANG_ABORT = 300
+_FIRST_HANG: list = []
+
+
+def note_hang(fn: str, args: Any) -> None:
+    if not _FIRST_HANG:
+        _FIRST_HANG.append((fn, repr(args)[:600]))
+    if _STRIKES[0] >= HANG_ABORT:
+        raise TooManyHangs(*_FIRST_HANG[0])
+
+
 def bounded(on_timeout):
     """Decorator: the call is bounded by time_limit(); when the limit strikes the function returns `on_timeout` (a value that
-    never matches the model / is reported as a failing input)."""
+    never matches the model / is reported as a failing input); after HANG_ABORT strikes in one process TooManyHangs stops the check."""
     import functools
 
     def deco(fn):
@@ -217,12 +238,23 @@ def bounded(on_timeout):
                 with time_limit():
                     return fn(*a, **k)
             except ImplTimeout:
+                note_hang(fn.__name__, (a, k))
                 return on_timeout
         return wrapper
     return deco
 
 
 HANG = [4, 9, *map(ord, 'no result within the time limit')]
+
+
+def stage_bounded(ck: Ck, key: str, fn, *args, seconds: float = 60.0) -> None:
+    """A whole oracle stage on small fixed inputs under one CPU-time limit; a timeout is a violation (the stage needs < 1 s)."""
+    try:
+        with time_limit(seconds):
+            fn(*args)
+    except ImplTimeout:
+        ck.violation(f'hang:{key}', f'{key}: the implementation did not return within {seconds:.0f} s of CPU time on the fixed inputs of this oracle',
+                     {'kind': 'hang', 'stage': key})
 
 
 def _run_coqc(cmd: Sequence[str], cwd, timeout: int, what: str) -> subprocess.CompletedProcess:
@@ -271,6 +303,13 @@ def guarded(pid: str, body, ck: Ck) -> None:
     try:
         body(ck)
         ck.notes.extend(POOL_NOTES)
+    except TooManyHangs as e:
+        ck.violation(f'hang:{e.fn}', f'more than {HANG_ABORT} calls into the implementation did not return within their CPU-time limit '
+                     f'(2 s for the first ones); the check was stopped; first: {e.fn}{e.args_repr}',
+                     {'kind': 'hang', 'function': e.fn, 'arguments': e.args_repr})
+        ck.explain('instance:')
+        ck.explain('correspondence:')
+        ck.explain('translate:')
     except Inconclusive as e:
         print(f'INCONCLUSIVE property={pid}: {e} - the checking machine failed, not the source under test; no VIOLATION is claimed, re-run the check')
         raise
@@ -349,6 +388,9 @@ def pool_map(fn, items: Sequence, workers: int = 14, chunksize: int = 1) -> list
         pool.terminate()
         POOL_NOTES.append(f'pool_map: pool failed ({e!r}); computed sequentially')
         return [fn(x) for x in items]
+    except BaseException:
+        pool.terminate()
+        raise
 
 
 def coq_chars(cs: Iterable[int]) -> str:
